@@ -25,7 +25,7 @@ def run(tier):
              "files in the directory (dated 2000-01-01, i.e. 'oldest'); after every operation: active+rotated <= N, the surviving rotated files are the most recent ones "
              "(contiguous stretch), nothing disappears for N<=0, nothing rotates for N=1, foreign files byte-identical; every unlink is checked at the system call "
              "(scheme name, more than N-1 rotated files present, no older rotated file left)",
-        deep=deep, reconf=reconf, assumptions=vfsrun.COMMON_ASSUMPTIONS,
+        deep=deep, reconf=reconf, crash=(vfsrun.cfgs([5], [2, 3], [4, 6]) + vfsrun.cfgs([1], [3], [4]), 1 if tier == 'quick' else 2), assumptions=vfsrun.COMMON_ASSUMPTIONS,
         long_cfgs=longs, long_writes=writes)
 
 
